@@ -605,6 +605,7 @@ def jobs_for(tier):
         ('tr2:F2T1', dict(n=2, faults=2, times=1, probes=0, closing_every=4)),
         ('tr2:R1T1P1', dict(n=2, faults=0, times=1, probes=1, restarts=1, closing_every=4)),
         ('tr2:D1T1P1', dict(n=2, faults=0, times=1, probes=1, drops=1, closing_every=4)),
+        ('tr2:D2T1', dict(n=2, faults=0, times=1, probes=0, drops=2, closing_every=3)),
         ('tr2-cold:D1P1', dict(n=2, faults=0, times=0, probes=1, drops=1, closing_every=4, cold=True)),
         ('tr2-cold:N1T1', dict(n=2, faults=0, times=1, probes=0, netdowns=1, closing_every=2, cold=True)),
         ('tr2:N1T2', dict(n=2, faults=0, times=2, probes=0, netdowns=1, closing_every=3)),
